@@ -266,6 +266,22 @@ fn hostile_plans(thorough: bool) -> Vec<Plan> {
             (format!("{}/two_stakes", k.name), trim(|| seed_two_stakes(&k), 120)),
             (format!("{}/refundable", k.name), trim(refundable, 120)),
         ];
+        // amounts at the top of the window of C16 (10^27) carried through a whole history
+        let big = 1_000_000_000_000_000_000_000_000_000u128;
+        let kb = k.clone();
+        seeds.push((
+            format!("{}/big_received", k.name),
+            try_seed(move || {
+                let mut sc = Script::resumed(&kb);
+                sc.s.fund(&u(1), big);
+                sc.s.fund(&u(2), big);
+                let sc = sc.run(stake(&u(1), big)).run(stake(&u(2), big / 3 + 1));
+                let sc = sc.with(|s| unstake(s, &u(1), big / 2)).with(|s| unstake(s, &u(2), big / 7));
+                let sc = sc.with(|s| advance(pending_due(s))).run(submit(&u(1)));
+                let sc = sc.with(|s| advance(s.m.batches[&1].due)).with(|s| deliver(s, 1, s.m.batches[&1].expected.unwrap()));
+                sc.done()
+            }),
+        ));
         if k.fee <= 100_000 {
             // (a fee rate above 100 % refuses every reward, so the reward-based seeds do not exist there)
             seeds.push((format!("{}/rate_up", k.name), trim(|| seed_rate_up(&k), 120)));
